@@ -1,7 +1,7 @@
 """C09 - tensor construction and read-back are lossless for every format (DESIGN.md section 3, C09)."""
 import sys
 from ..common import run_check
-from ..srules import axis, structsem, tensorapi
+from ..srules import axis, ownership, structsem, tensorapi
 from ..srules.core import SourceIndex
 
 
@@ -31,6 +31,8 @@ def main(ctx):
     structsem.rule_structure_semantics(ctx, ix)
     tensorapi.rule_validation_dominates(ctx, ix)
     structsem.rule_api_semantics(ctx, ix)
+    # read-back is only meaningful while the storage lives: iterators over a tensor's arrays must keep the tensor alive
+    ownership.rule_borrowed_pointers(ctx, ix)
 
 
 if __name__ == "__main__":
